@@ -4,7 +4,7 @@
 From Coq Require Import Extraction ExtrOcamlBasic.
 From Coq Require Import List NArith ZArith String.
 From Gen Require Import Tables.
-From Model Require Import Base Names Flt F32 Matches Detect Declared Cd Decode Cli Md Md32 Layers SbLangs Jaro Jaro32 Pipeline.
+From Model Require Import Base Names Flt F32 Matches Detect Declared Cd Decode Cli Md Md32 Layers SbLangs Jaro Jaro32 Pipeline Alph.
 
 Extraction Language OCaml.
 Separate Extraction
@@ -24,4 +24,5 @@ Separate Extraction
   Layers.alpha_unicode_split
   SbLangs.sb_langs32
   Jaro32.popularity32 Jaro32.jaro32
-  Pipeline.pipeline.
+  Pipeline.pipeline
+  Alph.alph_check32.
